@@ -246,4 +246,74 @@ theorem C05N_unqueued_nested_complete (fin0 : Nat) (sc : Script) (cfg : NCfg) (q
     simp only [hr, Res.state?, Option.some.injEq] at h; subst h
     exact ⟨pre, post, mask, .raised s.nextTag e, by simp [NSt.emit, NSt.emitG, hl, hs1log], Or.inr ⟨e, rfl⟩⟩
 
+/-! ### non-vacuity
+
+`P`(1) parallel [`a`(2) ⊃ `a1`(3);  `b`(4) ⊃ `b1`(5), `b2`(6)], `Q`(7); two finalize callbacks (90 = the visibility
+marker).  Event 0 moves region `b`; its `before` callback 10 triggers events 1 and 2, the `on_enter` callback 21 of
+`b2` triggers event 0 again: three deferred calls (tags 1, 2, 3), each returning True.  Event 1 (tag 1) leaves `P` for
+`Q`; event 2 (tag 2) has a `prepare` callback 12 that raises at its first invocation: the exception escapes the
+draining call (tag 0), and the pending call of tag 3 is discarded — none of its callbacks ever runs.  The second
+top-level call (tag 4) starts from an empty queue. -/
+
+def exCfg5N : NCfg :=
+  { states := .cons { name := 1, initial := [2, 4] }
+      (.cons { name := 2, initial := [3], onExit := [20] } (.cons { name := 3 } .nil .nil)
+        (.cons { name := 4, initial := [5] } (.cons { name := 5 } .nil (.cons { name := 6, onEnter := [21] } .nil .nil)) .nil))
+      (.cons { name := 7 } .nil .nil),
+    events := [(0, [{ source := [1, 4, 5], dest := some [1, 4, 6], before := [10] }]),
+               (1, [{ source := [1, 2, 3], dest := some [7], after := [11] }]),
+               (2, [{ source := [7], dest := some [1], prepare := [12] }])],
+    finalize := [90, 91], queued := true, initial := [1] }
+
+def exScript5N : Script := fun c k =>
+  if c = 10 then { cmds := [.trigger 0 1, .trigger 0 2] }
+  else if c = 21 then { cmds := [.trigger 0 0] }
+  else if c = 12 ∧ k = 0 then { out := .raise (.user 7) }
+  else {}
+
+/-- `(callback, tag)` of the callback starts of a trace -/
+def callsOf5N (l : List Item) : List (Nat × Nat) :=
+  l.filterMap fun i => match i with
+    | .call _ c _ t _ => some (c, t)
+    | _ => none
+
+/-- `(tag, outcome)` of the call outcomes of a trace: 1 = returned True, 0 = returned False, 2 = raised -/
+def outsOf5N (l : List Item) : List (Nat × Nat) :=
+  l.filterMap fun i => match i with
+    | .ret t b => some (t, if b then 1 else 0)
+    | .raised t _ => some (t, 2)
+    | _ => none
+
+-- the hypotheses of `C05N_queued_history` / `C05N_top_trigger` hold for it
+example : exCfg5N.queued = true ∧ exCfg5N.finalize = 90 :: [91] ∧ 90 ∉ [91] := by decide
+
+/-- the run completes (38 items, queue empty); callbacks in arrival order of their events (tags 0, 1, 2, then 4 —
+nothing of tag 3); the deferred calls 1, 2, 3 returned True, call 0 raised; the acceptor accepts -/
+example :
+    ((NSt.init exCfg5N).bind fun s0 => (nrunHistory exScript5N exCfg5N 16 3 [0, 2] s0).map fun s =>
+      (s.log.length, s.queue.length, idle 90 2 s.log)) = some (38, 0, true) ∧
+    ((NSt.init exCfg5N).bind fun s0 => (nrunHistory exScript5N exCfg5N 16 3 [0, 2] s0).map fun s =>
+      callsOf5N s.log) =
+      some [(10, 0), (21, 0), (90, 0), (91, 0), (20, 1), (11, 1), (90, 1), (91, 1), (12, 2), (90, 2), (91, 2),
+            (12, 4), (90, 4), (91, 4)] ∧
+    ((NSt.init exCfg5N).bind fun s0 => (nrunHistory exScript5N exCfg5N 16 3 [0, 2] s0).map fun s =>
+      outsOf5N s.log) = some [(1, 1), (2, 1), (3, 1), (0, 2), (4, 1)] := by
+  decide
+
+/-- the same machine without a queue, callback 10 triggering event 1: the nested event (tag 1) is processed at once
+and completely — exit of `a`, `after`, both finalize callbacks — between the start of callback 10 and the rest of
+event 0 (hypotheses of `C05N_unqueued_nested_immediate` / `_complete`: `(sc 10 0).cmds = [.trigger 0 1]`,
+`queued = false`, empty queue) -/
+def exCfg5U : NCfg := { exCfg5N with queued := false }
+def exScript5U : Script := fun c _ => if c = 10 then { cmds := [.trigger 0 1] } else {}
+
+example : (exScript5U 10 0).cmds = [.trigger 0 1] ∧ exCfg5U.queued = false := by decide
+
+example :
+    ((NSt.init exCfg5U).bind fun s0 => (nrunHistory exScript5U exCfg5U 16 3 [0] s0).map fun s =>
+      (s.log.length, callsOf5N s.log, outsOf5N s.log)) =
+    some (20, [(10, 0), (20, 1), (11, 1), (90, 1), (91, 1), (21, 0), (90, 0), (91, 0)],
+      [(1, 1), (0, 1)]) := by
+  decide
+
 end TM
